@@ -97,6 +97,7 @@ REFUSALS = {
     "selection-of-invalid-entry": set(),
     "selection-of-unspecified": set(),
 }
+ALL_REFUSALS = set().union(*REFUSALS.values())
 TWO_SWITCH = "Exception@choice_map.py:build"
 VECOR_SIG_VALUE = "C17|op=or|on=Mask-leaf|field=value|cond=vector-flag+trailing-dims"
 VECOR_SIG_RAISE = "C17|op=or|on=Mask-leaf|field=raises|cond=vector-flag+trailing-dims"
@@ -118,10 +119,10 @@ def _mech(e):
 
 
 def _allowed(reasons, mech):
-    for r in reasons:
-        if mech in REFUSALS.get(r, ()):
-            return True
-    return False
+    """A refusal is accepted when the model marks some position of the map as unspecified and the
+    mechanism belongs to the library's refusal family (the exact pairing reason -> mechanism is
+    not predictable below an unspecified position: shapes and kinds there are unknown)."""
+    return bool(reasons) and mech in ALL_REFUSALS
 
 
 def _norm(G, v):
@@ -514,6 +515,10 @@ class Runner:
         if reasons and _allowed(reasons, mech):
             ctx.reject(f"lookup:{'+'.join(sorted(reasons))[:60]}:{mech}")
             return False
+        merged = M.index_merge_reasons(case.models[k], tuple(_key_model(c) for c in path))
+        if merged and _allowed(merged, mech):
+            ctx.reject(f"lookup:index-level-skeletons:{'+'.join(sorted(merged))[:50]}:{mech}")
+            return False
         if meta["nsw"] >= 1 and mech in _LAMBDA and any(not isinstance(c, str) for c in path):
             # a map built from an array switch keeps the (0-d) switch index inside its skeleton even
             # where it is semantically empty; an integer / slice lookup that is mapped over that
@@ -820,5 +825,5 @@ def run(ctx):
             ctx.count(f"hashseed_{hs}_shards")
         return
     ctx.count(f"hashseed_{os.environ.get('PYTHONHASHSEED', '?')}_shards_inprocess")
-    G = run_cases(ctx, n_cases=ctx.pick(14, 400), n_jit=ctx.pick(2, 40), budget_s=ctx.pick(55, 800))
+    G = run_cases(ctx, n_cases=ctx.pick(12, 400), n_jit=ctx.pick(2, 40), budget_s=ctx.pick(42, 800))
     dup_address_monitor(ctx, G, ctx.pick(2, 12))
